@@ -32,6 +32,10 @@ pub enum Malform {
         #[serde(default)]
         variant: u8,
     },
+    /// two more edges from the root to versions whose file names are not UTF-8 and differ only in the invalid byte
+    /// (`v<E9>`, `v<E8>`): refusing the directory is fine; resolving it must not make a version `v\u{FFFD}` appear
+    /// (missed seeded change C05-14: lossy conversion of file names folds the two into one node)
+    NonUtf8Twins,
 }
 
 #[derive(Clone, Serialize, Deserialize, PartialEq, Debug)]
@@ -351,7 +355,8 @@ impl Engine for C05 {
         }
         // malformed directories in ~25 % of the runs
         if w.chance(25) {
-            p.malform = Some(match w.below(5) {
+            p.malform = Some(match w.below(6) {
+                5 => Malform::NonUtf8Twins,
                 0 => Malform::NoRoot,
                 1 => Malform::TwoRoots { name: "zz-second-root".into() },
                 2 if n >= 2 => {
@@ -384,6 +389,10 @@ impl Engine for C05 {
             keys.push(b.split('~').next().unwrap().to_string());
         }
         keys.push("no-such-version".into());
+        if p.malform == Some(Malform::NonUtf8Twins) {
+            keys.push("v\u{fffd}".into());
+            keys.push("v\u{fffd}".into());
+        }
         // unknown names built from pieces that exist: the halves / names of two DIFFERENT versions joined by `~`
         // (missed seeded change C05-12: a lookup that checks the halves separately)
         {
@@ -724,6 +733,15 @@ fn run_once(p: &Plan, create_order: u64, st: &mut RunStats, answers: &mut Vec<St
             dir.create(n, b);
         }
     }
+    if p.malform == Some(Malform::NonUtf8Twins) {
+        let root = &p.versions[0];
+        for b in [0xE9u8, 0xE8] {
+            let mut name = format!("{root}#v").into_bytes();
+            name.push(b);
+            name.extend_from_slice(b".tinydiff");
+            dir.create_raw(&name, b"tiny\t2\t0\n");
+        }
+    }
     let listing = dir.listing();
     let mut sorted = listing.clone();
     sorted.sort();
@@ -761,6 +779,11 @@ fn run_once(p: &Plan, create_order: u64, st: &mut RunStats, answers: &mut Vec<St
             if must_fail_at_resolve {
                 if count {
                     st.probe("malformed.rejected");
+                    st.nontrivial = true;
+                }
+            } else if p.malform == Some(Malform::NonUtf8Twins) {
+                if count {
+                    st.probe("non_utf8_names_rejected");
                     st.nontrivial = true;
                 }
             } else if matches!(p.malform, Some(Malform::Collision { .. })) {
